@@ -48,15 +48,11 @@ EXPLANATION = ('Theorems (Props/C16.v): the generic round-trip lemma over constr
                'accepted keyword set. The correspondence ties the table to the implementation (predicted dump keys = actual dump keys) and measures '
                'what the lemma assumes per attribute (reading an attribute of the rebuilt object gives the dumped value) and what it implies '
                '(equal cost / marginal cost / constraint values).')
-ASSUMPTIONS = ['an attribute read is an idempotent normalisation of the supplied value (measured per attribute by the correspondence)']
+ASSUMPTIONS = ['an attribute read is an idempotent normalisation of the supplied value (measured per attribute by the correspondence)',
+               'parameters are given to the constructor; attributes assigned through setters after construction are not serialised (documented design of Device.__init__)']
 warnings.simplefilter('ignore')
 
-# reported to the lead, not yet in known_findings.json
-PENDING = [{'property': 'C16', 'id': 'adevice-constraints-accumulate',
-            'what': "ADevice.to_dict() dumps 'constraints' through the property, which prepends the constraints derived from cbounds; every "
-                    'round trip therefore adds two constraints per cumulative bound: ADevice(cbounds=(1,4), constraints=[c]) has 3 constraints, '
-                    'its rebuild 5, the next 7 (also with constraints=[]: 2 -> 4 -> 6)',
-            'match': {'class': 'ADevice', 'region': 'cbounds given and the constraints keyword passed'}}]
+PENDING = []     # findings reported by this check that are not yet in known_findings.json (none at the moment)
 
 
 def open_ids():
@@ -91,8 +87,7 @@ def leaf_specs():
                                                        ('p_l', [lambda: -2.]), ('p_h', [lambda: -.5])]),
     'IDevice': (base(T), [cb, meta, ('a', [lambda: .25, lambda: [.25, 0., .5]]), ('b', [lambda: 3., lambda: [1., 2., 3.]]), ('c', [lambda: 2., lambda: [0., 1., 2.]])]),
     'IDevice2': (base(T), [cb, meta, ('p_l', [lambda: -2., lambda: np.array([-2., -1., -3.])]), ('p_h', [lambda: -.5, lambda: [-.5, -.25, 0.]])]),
-    'GDevice': (dict(base(NEG), cost_coeffs=lambda: [0., 1., 0.]),      # without cost_coeffs a GDevice has no cost function at all (reported under C10)
-                [('cbounds', [lambda: (-4., -2.)]), meta, ('cost_coeffs', [lambda: [1., 1., 0.], lambda: [[1., 1., 0.], [2., 0., 1.], [0., 1., 0.]]])]),
+    'GDevice': (base(NEG), [('cbounds', [lambda: (-4., -2.)]), meta, ('cost_coeffs', [lambda: [1., 1., 0.], lambda: [[1., 1., 0.], [2., 0., 1.], [0., 1., 0.]]])]),
     'PVDevice': (base(NEG), [('cbounds', [lambda: (-4., -2.)]), meta]),
     'SDevice': (base(lambda: (-2., 2.)), [('cbounds', [lambda: (-1., 4.)]), meta, ('c1', [lambda: 2.]), ('c2', [lambda: .5]), ('c3', [lambda: 1.5]),
                                          ('capacity', [lambda: 8.]), ('damage_depth', [lambda: .25]), ('start', [lambda: .5]), ('reserve', [lambda: .25]),
@@ -321,7 +316,10 @@ def gen_cases(rng, tier):
 def tree_of(c):
   import treegen as tg
   rng = random.Random(c['seed'])
-  return tg.gen_tree(rng, c['depth'])
+  T = tg.gen_tree(rng, c['depth'])
+  for _, L in leaves_of(T):
+    L.pop('post_set', None)      # every parameter through the constructor: attributes assigned after construction are not dumped, by design (Device.__init__ docstring)
+  return T
 
 
 def observe(c):
